@@ -28,6 +28,7 @@ type Finding struct {
 	Property   string
 	Obligation string
 	Text       string
+	What       string
 }
 
 func readFindings(path string) []Finding {
@@ -60,6 +61,14 @@ func readFindings(path string) []Finding {
 			}
 		}
 		f.Text = l
+		// what fails: the line without its property= / obligation= words
+		var rest []string
+		for _, w := range strings.Fields(l) {
+			if !strings.HasPrefix(w, "property=") && !strings.HasPrefix(w, "obligation=") {
+				rest = append(rest, w)
+			}
+		}
+		f.What = "obligation=" + f.Obligation + " " + strings.Join(rest, " ")
 		out = append(out, f)
 	}
 	return out
@@ -717,7 +726,7 @@ func runCheck(prop, tier, repo, verif string, verbose bool, tmo int) int {
 			continue
 		}
 		if f, ok := known[r.o.Name]; ok {
-			fmt.Printf("KNOWN-FINDING: property=%s %s\n", prop, f.Text)
+			fmt.Printf("KNOWN-FINDING: property=%s %s\n", prop, f.What)
 			knownHit = append(knownHit, r.o.Name)
 			continue
 		}
@@ -798,6 +807,38 @@ func runCheck(prop, tier, repo, verif string, verbose bool, tmo int) int {
 		fmt.Printf("ENGINE-ERROR property=%s: no obligations generated\n", prop)
 		exit = 2
 	}
+	// bounded stand-ins for the parts of a property no contract within reach decides (labelled bounded, never counted as
+	// discharged): a failure is a violation with the failing input, unless the known-findings file lists it
+	boundedNotes = nil
+	if prop == "C18" {
+		br := runC18RoundTrip(repo, dir)
+		if br.Err != "" {
+			fmt.Printf("ENGINE-ERROR property=%s: bounded check %s: %s\n", prop, br.Label, br.Err)
+			exit = 2
+		} else {
+			boundedNotes = append(boundedNotes, br.Summary)
+			for _, bf := range br.Failures {
+				if f, ok := known[bf.Name]; ok {
+					fmt.Printf("KNOWN-FINDING: property=%s %s\n", prop, f.What)
+					knownHit = append(knownHit, bf.Name)
+					continue
+				}
+				violations++
+				exit = 1
+				rd := replayDir
+				if noEvidence {
+					rd = filepath.Join(dir, "replays")
+				}
+				os.MkdirAll(rd, 0o755)
+				rp := filepath.Join(rd, sanitizeFile(bf.Name)+".json")
+				rec := map[string]interface{}{"property": prop, "obligation": bf.Name, "kind": "bounded", "clause": bf.Text, "failing_input": bf.Detail, "confirmed_on_real_code": true, "replay": bf.Confirm}
+				data, _ := json.MarshalIndent(rec, "", " ")
+				os.WriteFile(rp, data, 0o644)
+				fmt.Printf("VIOLATION property=%s replay=%s\n", prop, rp)
+				fmt.Printf("  failed obligation %s (bounded check, failing input found) %s\n", bf.Name, truncate(bf.Text, 300))
+			}
+		}
+	}
 	for _, v := range pr.vacuous {
 		fmt.Printf("ENGINE-ERROR property=%s: assumptions of %s are contradictory (vacuous proof)\n", prop, v)
 		exit = 2
@@ -816,6 +857,15 @@ func runCheck(prop, tier, repo, verif string, verbose bool, tmo int) int {
 	fmt.Printf("property %s: %d obligations, %d discharged, %d known findings, %d unclaimed-unproved, %d violations (%.1fs)\n",
 		prop, len(pr.results), len(discharged), len(knownHit), len(failedUnclaimed), violations, time.Since(start).Seconds())
 	return exit
+}
+
+var boundedNotes []string
+
+func boundedNotesOrEmpty() []string {
+	if boundedNotes == nil {
+		return []string{}
+	}
+	return boundedNotes
 }
 
 func writeEvidence(eng *Engine, pr *propRun, prop, tier, verif string, discharged, unclaimed, knownHit, lost []string, samples []map[string]interface{}, byBackend map[string]int, violations int, wall float64) {
@@ -898,7 +948,7 @@ func writeEvidence(eng *Engine, pr *propRun, prop, tier, verif string, discharge
 		"known_findings_reproduced": knownHit,
 		"binding_lost":              lost,
 		"binding_errors":            eng.bindingErrors,
-		"bounded":                   []string{},
+		"bounded":                   boundedNotesOrEmpty(),
 		"rule":                      "one obligation per contract clause conjunct / loop-invariant conjunct / call-site precondition / safety condition; each is a universally quantified statement over all inputs satisfying the function's requires",
 	}
 	if len(samples) == 0 {
